@@ -12,6 +12,7 @@ import (
 	"io"
 	"strings"
 	"testing"
+	"time"
 
 	"github.com/gagliardetto/solana-go"
 	old_faithful_grpc "github.com/rpcpool/yellowstone-faithful/old-faithful-proto/old-faithful-grpc"
@@ -423,6 +424,186 @@ func TestVerif_C08(t *testing.T) {
 			rep.Case(fmt.Sprintf("%s/grpc/stream/%+v", tag, g), true)
 			rep.Count("grpc:StreamTransactions")
 			cases.Add(fmt.Sprintf("CGrpc %s %s %s", vh.CoqBool(hasTxs), coqF, obs))
+		}
+		// ---- gRPC StreamTransactions: slot ranges (any start, any / absent end)
+		{
+			loadedSet := map[uint64]bool{}
+			for _, tr := range truths[:nEpochs] {
+				loadedSet[tr.Spec.Epoch] = true
+			}
+			maxU := ^uint64(0)
+			hangs := 0
+			starts := []uint64{0, base, base + 3, vfxEpochLen * 5, base + vfxEpochLen, 1 << 63, maxU - 50, maxU}
+			u := func(x uint64) *uint64 { return &x }
+			ends := []*uint64{nil, u(0), u(base), u(base + 11), u(vfxEpochLen * 1000), u(1 << 55), u(1 << 63), u(maxU)}
+			for _, st := range starts {
+				for _, en := range ends {
+					for _, withAcc := range []bool{false, true} {
+						req := &old_faithful_grpc.StreamTransactionsRequest{StartSlot: st, EndSlot: en}
+						if withAcc {
+							req.Filter = &old_faithful_grpc.StreamTransactionsFilter{AccountInclude: []string{good}}
+						}
+						coqE := "None"
+						if en != nil {
+							coqE = "(Some " + vh.CoqN(*en) + ")"
+						}
+						obs := "GStreams"
+						if hangs >= 2 {
+							continue
+						}
+						// the window the handler computes (uint64 arithmetic), and whether an address index covers it
+						enSlot := st + 100
+						if en != nil {
+							enSlot = *en
+						}
+						indexed := false
+						held := 0
+						if withAcc {
+							for _, tr := range truths[:nEpochs] {
+								if tr.Spec.Epoch >= st/vfxEpochLen && tr.Spec.Epoch <= enSlot/vfxEpochLen {
+									indexed = true
+									held += len(tr.Blocks)
+								}
+							}
+						}
+						done := make(chan struct{})
+						go func() {
+							defer close(done)
+							defer func() {
+								if r := recover(); r != nil {
+									obs = "GPanic 0"
+									rep.Fail("grpc-panic:StreamTransactions:slot-range", fmt.Sprintf("%s start_slot=%d end_slot=%s: %v", tag, st, coqE, r),
+										map[string]interface{}{"epochs_loaded": nEpochs, "start_slot": st, "end_slot": coqE, "account_include": withAcc})
+								}
+							}()
+							cctx, cancel := context.WithTimeout(ctx, 40*time.Millisecond)
+							defer cancel()
+							_ = multi.StreamTransactions(req, &vc08Stream{ctx: cctx})
+						}()
+						select {
+						case <-done:
+						case <-time.After(8 * time.Second):
+							// the stream's context ended 40 ms after the call: the handler is spinning
+							hangs++
+							obs = "GSpins"
+							rep.Fail("grpc-hang:StreamTransactions:slot-range", fmt.Sprintf("%s start_slot=%d end_slot=%s account_include=%v: no return 8 s after the stream context ended", tag, st, coqE, withAcc),
+								map[string]interface{}{"epochs_loaded": nEpochs, "start_slot": st, "end_slot": coqE, "account_include": withAcc})
+						}
+						if !withAcc { // the same window through StreamBlocks
+							bdone := make(chan struct{})
+							go func() {
+								defer close(bdone)
+								defer func() {
+									if r := recover(); r != nil {
+										rep.Fail("grpc-panic:StreamBlocks:slot-range", fmt.Sprintf("%s start_slot=%d end_slot=%s: %v", tag, st, coqE, r),
+											map[string]interface{}{"epochs_loaded": nEpochs, "start_slot": st, "end_slot": coqE})
+									}
+								}()
+								cctx, cancel := context.WithTimeout(ctx, 40*time.Millisecond)
+								defer cancel()
+								_ = multi.StreamBlocks(&old_faithful_grpc.StreamBlocksRequest{StartSlot: st, EndSlot: en}, &vc08BlockStream{ctx: cctx})
+							}()
+							select {
+							case <-bdone:
+							case <-time.After(8 * time.Second):
+								hangs++
+								rep.Fail("grpc-hang:StreamBlocks:slot-range", fmt.Sprintf("%s start_slot=%d end_slot=%s: no return 8 s after the stream context ended", tag, st, coqE),
+									map[string]interface{}{"epochs_loaded": nEpochs, "start_slot": st, "end_slot": coqE})
+							}
+							rep.Count("grpc:StreamBlocks:slot-range")
+						}
+						rep.Case(fmt.Sprintf("%s/grpc/range/%d/%s/%v", tag, st, coqE, withAcc), true)
+						rep.Count("grpc:StreamTransactions:slot-range")
+						cases.Add(fmt.Sprintf("CRange %s %s %s %s %s %s", vh.CoqN(uint64(nEpochs)), vh.CoqN(uint64(held)), vh.CoqBool(indexed), vh.CoqN(st), coqE, obs))
+					}
+				}
+			}
+			// ---- REST front /api/v1/
+			type apiCase struct {
+				method, path, coq string
+			}
+			var apis []apiCase
+			slotCase := func(txt string, parses bool, slot uint64) {
+				found := false
+				loaded := false
+				if parses {
+					loaded = loadedSet[slot/vfxEpochLen]
+					for _, tr := range truths[:nEpochs] {
+						if tr.blockBySlot(slot) != nil {
+							found = true
+						}
+					}
+				}
+				apis = append(apis, apiCase{"GET", "/api/v1/slot-to-cid/" + txt, fmt.Sprintf("(ApiSlot %s %s %s)", vh.CoqBool(parses), vh.CoqBool(loaded), vh.CoqBool(found))})
+			}
+			slotCase("", false, 0)
+			slotCase("abc", false, 0)
+			slotCase("-1", false, 0)
+			slotCase("18446744073709551616", false, 0)
+			slotCase("1.5", false, 0)
+			slotCase("18446744073709551615", true, maxU)
+			slotCase("0", true, 0)
+			slotCase(fmt.Sprint(vfxEpochLen*900), true, vfxEpochLen*900)
+			for _, tr := range truths {
+				for i := 0; i < 4 && i < len(tr.Blocks); i++ {
+					sl := tr.Blocks[rng.Intn(len(tr.Blocks))].Slot
+					slotCase(fmt.Sprint(sl), true, sl)
+					slotCase(fmt.Sprint(sl)+"/", true, sl)
+				}
+				for i := 0; i < 3; i++ { // slots without a block
+					sl := tr.base() + uint64(rng.Intn(3000))
+					slotCase(fmt.Sprint(sl), true, sl)
+				}
+			}
+			sigCase := func(txt string, parses, found bool) {
+				apis = append(apis, apiCase{"GET", "/api/v1/sig-to-cid/" + txt, fmt.Sprintf("(ApiSig %s %d %s)", vh.CoqBool(parses), nEpochs, vh.CoqBool(found))})
+			}
+			sigCase("", false, false)
+			sigCase("xyz", false, false)
+			sigCase("0OIl", false, false)
+			sigCase(good, false, false) // 32 bytes, not 64
+			for i := 0; i < 4; i++ {
+				var sg solana.Signature
+				copy(sg[:], rng.Bytes(64))
+				sigCase(sg.String(), true, false)
+			}
+			for ti, tr := range truths {
+				n := 0
+				for _, b := range tr.Blocks {
+					if len(b.Txs) > 0 && n < 3 {
+						n++
+						sigCase(b.Txs[len(b.Txs)-1].Sig, true, ti < nEpochs)
+					}
+				}
+			}
+			for _, hm := range []string{"POST", "PUT", "DELETE", "HEAD"} {
+				apis = append(apis, apiCase{hm, "/api/v1/slot-to-cid/5", "ApiNotGet"})
+				apis = append(apis, apiCase{hm, "/api/v1/sig-to-cid/" + good, "ApiNotGet"})
+			}
+			for _, pth := range []string{"/api/v1/", "/api/v1/slot-to-cid", "/api/v1/sig-to-cid", "/api/v1/other/1", "/api/v1/slot-to-cidX/1"} {
+				apis = append(apis, apiCase{"GET", pth, "ApiOther"})
+			}
+			for _, a := range apis {
+				func() {
+					obs := ""
+					defer func() {
+						if r := recover(); r != nil {
+							obs = "(ApiPanic 0)"
+							rep.Fail("handler-panic:rest-api", fmt.Sprintf("%s %s %s: %v", tag, a.method, a.path, r), map[string]interface{}{"epochs_loaded": nEpochs, "method": a.method, "path": a.path})
+						}
+						cases.Add(fmt.Sprintf("CApi %s %s", a.coq, obs))
+					}()
+					var req fasthttp.Request
+					req.Header.SetMethod(a.method)
+					req.SetRequestURI(a.path)
+					var rctx fasthttp.RequestCtx
+					rctx.Init(&req, nil, nil)
+					h(&rctx)
+					obs = fmt.Sprintf("(Status %d)", rctx.Response.StatusCode())
+					rep.Case(tag+"/api/"+a.method+a.path, true)
+					rep.Count("rest-api")
+				}()
+			}
 		}
 		// other gRPC methods with extreme / empty messages
 		grpcCalls := []struct {
